@@ -157,8 +157,16 @@ func runHsrvCase(t *testing.T, c map[string]any, tmp string) map[string]any {
 	}
 	if "file" == hstr(cfg, "fdir") {
 		fdir = filepath.Join(root, hstr(cfg, "single"))
+		if b, _ := cfg["single_symlink"].(bool); b { /* -serve-files-from names the file through a symbolic link */
+			ln := filepath.Join(base, "link-to-file")
+			os.Symlink(fdir, ln)
+			fdir = ln
+		}
 	}
 	tmplf := ""
+	if b, _ := cfg["tmpl_absent"].(bool); b { /* a template path is configured, the file is not there (yet) when the server starts */
+		tmplf = filepath.Join(base, "callback.tmpl")
+	}
 	if v, ok := cfg["tmpl"]; ok && nil != v {
 		tmplf = filepath.Join(base, "callback.tmpl")
 		if s, ok := v.(string); ok {
